@@ -151,14 +151,81 @@ fn run_probe(rep: &Report, local: &mut Local, p: &Probe) {
     let _ = h.join();
 }
 
+/// Extreme (valid) worker counts: multi-thread mode has to return what single-thread mode returns, for a
+/// fault-free source and for each fault kind, also when the configured count is far beyond the machine.
+struct Finite {
+    blocks: usize,
+    bad_at: Option<usize>,
+    err_at: Option<usize>,
+    k: usize,
+}
+
+impl Source for Finite {
+    fn channels(&self) -> usize {
+        1
+    }
+    fn bits_per_sample(&self) -> usize {
+        12
+    }
+    fn sample_rate(&self) -> usize {
+        8000
+    }
+    fn read_samples<F: Fill>(&mut self, block_size: usize, dest: &mut F) -> Result<usize, SourceError> {
+        let k = self.k;
+        self.k += 1;
+        if Some(k) == self.err_at {
+            return Err(SourceError::from_io_error(std::io::Error::new(std::io::ErrorKind::Other, "injected")));
+        }
+        if k >= self.blocks {
+            dest.fill_interleaved(&[])?;
+            return Ok(0);
+        }
+        let mut blk = vec![(k % 5) as i32 - 2; block_size];
+        if Some(k) == self.bad_at {
+            blk[1] = -(1 << 11) - 1;
+        }
+        dest.fill_interleaved(&blk)?;
+        Ok(block_size)
+    }
+}
+
+fn run_worker_counts(rep: &Report, local: &mut Local) {
+    for workers in [300usize, 100_000, usize::MAX / 2 + 1, usize::MAX] {
+        for (name, bad_at, err_at) in [("fault-free", None, None), ("out-of-width sample in block 2", Some(2usize), None), ("read error at block 3", None, Some(3usize))] {
+            local.evals += 1;
+            let cj = || json!({"extreme_worker_count": {"workers": workers, "script": name}});
+            let run = |mt: bool| {
+                let mut e = flacenc::config::Encoder::default();
+                e.multithread = mt;
+                e.workers = std::num::NonZeroUsize::new(workers);
+                let cfg = e.into_verified().ok().expect("configuration must verify");
+                panicx::catch(|| kind(&flacenc::encode_with_fixed_block_size(&cfg, Finite { blocks: 5, bad_at, err_at, k: 0 }, 32)))
+            };
+            match (run(false), run(true)) {
+                (Ok(a), Ok(b)) if a == b => {
+                    local.outcome("extreme_worker_count_agrees");
+                    local.nontrivial.insert(crate::universe::fnv(&format!("wc{workers}{name}")));
+                }
+                (Ok(a), Ok(b)) => rep.violation_conclusive("result_kind_differs|extreme_worker_count", &format!("{name}, workers = {workers}: multi-thread {b}, single-thread {a}"), cj(), 1),
+                (_, Err(pn)) => rep.violation_conclusive(&format!("caller_panic|extreme_worker_count|{}", pn.class()), &format!("{name}, workers = {workers}: multi-thread encoding panicked: {}", pn.describe()), cj(), 1),
+                (Err(pn), _) => rep.violation(&pn.class(), &format!("single-thread encoding panicked: {}", pn.describe()), cj(), 1),
+            }
+        }
+    }
+}
+
 pub fn run(args: &Args, rep: &Arc<Report>) {
     let mut local = Local::default();
     if let Some(p) = &args.replay {
         let s = std::fs::read_to_string(p).unwrap_or_default();
         let v: Value = serde_json::from_str(&s).unwrap_or(Value::Null);
         let c = v.get("case").cloned().unwrap_or(v);
-        let pr: Probe = serde_json::from_value(c["endless_source"].clone()).expect("replay file holds no endless-source probe");
-        run_probe(rep, &mut local, &pr);
+        if c.get("extreme_worker_count").is_some() {
+            run_worker_counts(rep, &mut local);
+        } else {
+            let pr: Probe = serde_json::from_value(c["endless_source"].clone()).expect("replay file holds no endless-source probe");
+            run_probe(rep, &mut local, &pr);
+        }
         rep.merge(local);
         rep.set_rule("replay of one endless-source probe");
         return;
@@ -188,8 +255,9 @@ pub fn run(args: &Args, rep: &Arc<Report>) {
     for l in outs {
         rep.merge(l);
     }
+    run_worker_counts(rep, &mut local);
     rep.merge(local);
     rep.sample(json!({"endless_source": probes[4]}));
     rep.extra("endless_source_probes", json!(probes.len()));
-    rep.set_rule("real-thread part: a source without a length hint that never ends (mono 12 bit, blocks of 32) with one out-of-width sample in block {0, 3, 40} x workers {1, 2, 4} x integer / byte fills: multi-thread encoding has to return, with the kind of error single-thread encoding returns (Err(Config) after bad_at + 1 reads), within 8 s (it needs milliseconds when it stops feeding); non-trivial = a probe that terminated with the right kind");
+    rep.set_rule("real-thread part: a source without a length hint that never ends (mono 12 bit, blocks of 32) with one out-of-width sample in block {0, 3, 40} x workers {1, 2, 4} x integer / byte fills: multi-thread encoding has to return, with the kind of error single-thread encoding returns (Err(Config) after bad_at + 1 reads), within 8 s (it needs milliseconds when it stops feeding); plus worker counts {300, 100000, 2^63, usize::MAX} x {fault-free, out-of-width sample, read error}: multi-thread result kind == single-thread result kind, no panic; non-trivial = a probe that terminated with the right kind");
 }
